@@ -75,12 +75,28 @@ def run(chk):
     cases = common.load_corpus("C07")
     for i in range(n):
         cases.append(gen_case(chk.rng, chk.rng.choice(["Task", "Task", "Parallel", "Map"]), quick))
+    # run the implementation first, collect every model query, ask the driver once
+    runs, lines, spans = [], [], []
     for case in cases:
         r = enginerun.run_case(case["machine"], case["input"], case["plans"])
-        try:
-            check_case(chk, case, r)
-        finally:
-            r.sim.close()
+        obs = {"errors": list(r.errors), "view": c01.impl_view(r), "reqs": [q for q in r.requests if q["queue"] == "f"]}
+        start = len(lines)
+        lines.append(c01.model_line(case["machine"], case["input"], r.exec_arn, r.plans.oracle()))
+        state_json = model_decisions(case)
+        seq = case["plans"]["f"]
+        errs = [o for o in seq if o[0] == "err"]
+        # the i-th failure is decided at retry count i as long as every earlier one was retried
+        for i in range(len(obs["reqs"]) + 1):
+            o = seq[i] if i < len(seq) else seq[-1]
+            if o[0] != "err":
+                break
+            lines.append("retry\tdecide\t%s\t%s\t%d" % (state_json, pj(o[1]), i))
+        spans.append((start, len(lines)))
+        runs.append(obs)
+        r.sim.close()
+    answers = common.driver(lines, shards=8)
+    for case, obs, (a, b) in zip(cases, runs, spans):
+        check_case(chk, case, obs, answers[a:b])
     chk.cov["rule"] = ("one retried state (Task, or Parallel / Map around a failing task) with 0-3 retriers and 0-2 catchers "
                        "(ErrorEquals sets incl. States.ALL alone / not alone, States.TaskFailed, reserved names, never-matching; "
                        "IntervalSeconds 1-3, MaxAttempts 0-3, BackoffRate 0.5-2.5 dyadic) x fault sequences of up to %d errors "
@@ -90,7 +106,7 @@ def run(chk):
                        "(machine, fault sequence)" % (5 if quick else 10))
 
 
-def check_case(chk, case, r):
+def check_case(chk, case, obs, answers):
     seq = case["plans"]["f"]
     st = case["machine"]["States"]["S"]
     key = cj([case["machine"], seq])
@@ -99,44 +115,39 @@ def check_case(chk, case, r):
     chk.dist("kind.%s" % case["kind"])
     chk.dist("faults.%d" % sum(1 for o in seq if o[0] == "err"))
     cview = {"machine": case["machine"], "input": case["input"], "plans": case["plans"], "kind": case["kind"]}
-    if r.errors:
-        chk.report("impl-violates-law", cview, impl={"errors": r.errors[:1]}, law="no exception escapes a handler")
+    if obs["errors"]:
+        chk.report("impl-violates-law", cview, impl={"errors": obs["errors"][:1]}, law="no exception escapes a handler")
         return
     # --- the whole outcome against the reference semantics
-    a = common.driver([c01.model_line(case["machine"], case["input"], r.exec_arn, r.plans.oracle())])[0].split("\t")
+    a = answers[0].split("\t")
     if a[0] == "ok":
         m = json.loads(a[1])
-        iv, mv = c01.impl_view(r), c01.model_view(m)
+        iv, mv = obs["view"], c01.model_view(m)
         if mv["status"] in ("SUCCEEDED", "FAILED") and cj(iv) != cj(mv):
             chk.report("impl-differs-from-spec", cview, impl=iv, model=mv,
                        law="outcome (status, output incl. the placed Error Output and the reset retry count, error name) equals Asl.run")
             return
     # --- the decisions and their timing
-    reqs = [q for q in r.requests if q["queue"] == "f"]
-    state_json = model_decisions(case)
-    count = 0
-    lines = []
-    errs = [o for o in seq if o[0] == "err"]
-    # decisions are taken in order of the failures actually observed
+    reqs = obs["reqs"]
+    decisions = [x.split("\t") for x in answers[1:]]
     t_expected = None
     for i, q in enumerate(reqs):
-        if t_expected is not None:
-            if abs(q["t"] - t_expected) > 1e-6:
-                chk.report("impl-differs-from-spec", dict(cview, attempt=i), impl={"request_at_ms": q["t"]},
-                           model={"request_at_ms": float(t_expected)},
-                           law="the k-th retry is issued IntervalSeconds x BackoffRate^k seconds after the failure (never early, not late)")
-                return
-        if i >= len(seq):
-            o = seq[-1]
-        else:
-            o = seq[i]
-        if o[0] != "err":
+        if t_expected is not None and abs(q["t"] - t_expected) > 1e-6:
+            chk.report("impl-differs-from-spec", dict(cview, attempt=i), impl={"request_at_ms": q["t"]},
+                       model={"request_at_ms": float(t_expected)},
+                       law="the k-th retry is issued IntervalSeconds x BackoffRate^k seconds after the failure (never early, not late)")
+            return
+        o = seq[i] if i < len(seq) else seq[-1]
+        if o[0] != "err" or i >= len(decisions):
             break
-        ans = common.driver(["retry\tdecide\t%s\t%s\t%d" % (state_json, pj(o[1]), count)])[0].split("\t")
+        ans = decisions[i]
         chk.dist("decision.%s" % ans[0])
         if ans[0] == "retry":
             d = Fraction(ans[1])
-            count = int(ans[2])
+            if int(ans[2]) != i + 1:
+                chk.report("impl-differs-from-spec", dict(cview, attempt=i), impl={}, model={"decision": ans},
+                           law="the retry count advances by one per retry")
+                return
             t_expected = Fraction(q["t"]) + WORKER_MS + d * 1000
             if i + 1 >= len(reqs):
                 chk.report("impl-differs-from-spec", dict(cview, attempt=i), impl={"requests": len(reqs)},
@@ -151,7 +162,7 @@ def check_case(chk, case, r):
             break
     if len(chk.cov["samples"]) < 4 and len(reqs) > 2:
         chk.sample({"state": {k: st.get(k) for k in ("Type", "Retry", "Catch")}, "faults": seq,
-                    "request_instants_ms": [q["t"] for q in reqs], "final": c01.impl_view(r)})
+                    "request_instants_ms": [q["t"] for q in reqs], "final": obs["view"]})
 
 
 def replay(chk, path):
